@@ -236,10 +236,16 @@ Print Assumptions C15_rounding_ties_to_even.
 Theorem C15_decode_bits_denominator_positive : forall bits neg num den, decode_bits bits = Some (neg, num, den) -> 0 < den.
 Proof. exact decode_bits_den. Qed.
 Print Assumptions C15_decode_bits_denominator_positive.
-(* "text outside the directive is copied" is FALSE of the code: finding fmtnum-literal-text-mangled *)
-Theorem C15_fmtnum_copies_literal_text_refuted : fmtnum (VInt 17) (B "17") (B "old:%d") = FOut (B "od:17").
-Proof. exact fmtnum_literal_text_mangled. Qed.
-Print Assumptions C15_fmtnum_copies_literal_text_refuted.
+(* the witnesses of the repaired findings (literal text mangled, trailing text, %x of a negative int) *)
+Theorem C15_fmtnum_repaired_witnesses :
+  fmtnum (VInt 17) (B "17") (B "old:%d") = FOut (B "old:17")
+  /\ fmtnum (VInt 17) (B "17") (B "%5d|") = FOut (B "   17|")
+  /\ fmtnum (VInt 0) (B "0") (B "le %16lf") = FOut (B "le         0.000000")
+  /\ fmtnum (VInt (-1)) (B "-1") (B "%x") = FOut (B "ffffffffffffffff") /\ hexfmt (VInt (-1)) (B "-1") = B "0xffffffffffffffff"
+  /\ fmtnum (VInt (-5)) (B "-5") (B "%08llx") = FOut (B "fffffffffffffffb")
+  /\ fmtnum (VInt (-1)) (B "-1") (B "%-10x|") = FOut (B "ffffffffffffffff|").
+Proof. exact fmtnum_repaired_witnesses. Qed.
+Print Assumptions C15_fmtnum_repaired_witnesses.
 
 Example C15_nonvacuous_2 :
   b64_encode (B "Ma") = B "TWE=" /\ b64_decode (B "TW
@@ -254,7 +260,7 @@ Fu") = Some (B "Man") /\ b64_decode (B "TWE") = None
   /\ fmtnum (VFloat 4612811918334230528%Z) (B "2.5") (B "%.0f") = FOut (B "2")
   /\ fmtnum (VFloat 4600877379321698714%Z) (B "0.4") (B "%.20f") = FOut (B "0.40000000000000002220")
   /\ fmtnum (VInt 9007199254740993) (B "9007199254740993") (B "%.1le") = FOut (B "9.0e+15")
-  /\ fmtnum (VInt 17) (B "17") (B "%5d|") = FOut (B "%!d(string=   17)|") /\ fmtnum (VInt (-1)) (B "-1") (B "%x") = FOut (B "-1").
+  /\ fmtnum (VInt 17) (B "17") (B "%5d|") = FOut (B "   17|") /\ fmtnum (VInt (-1)) (B "-1") (B "%x") = FOut (B "ffffffffffffffff").
 Proof. vm_compute. repeat split; try reflexivity; eexists; repeat split; reflexivity. Qed.
 
 (* ================================================================== wrapper verbs (ModelVerbs.v) *)
@@ -274,6 +280,96 @@ Example C15_nonvacuous_verbs :
     = [(B "a", B "1X2.3"); (B "b", B "4.5"); (B "c", B "6")]
   /\ run_verb VUtf8ToLatin1 [(B "k", bs [195; 169]%N); (B "e", bs [226; 130; 172]%N)] = [(B "k", bs [233]%N); (B "e", B "(error)")]
   /\ nth_error [(B "a", B "x"); (B "b", B "y")] 1 = Some (B "b", B "y").
+Proof. vm_compute. repeat split; reflexivity. Qed.
+
+(* ================================================================== round 2: fmtnum after the repairs of newFormatter *)
+(* the text before and after the directive is copied verbatim: ALL integers, ALL texts free of '%' (the finding
+   fmtnum-literal-text-mangled / fmtnum-trailing-text, now the full law) *)
+Theorem C15_fmtnum_copies_literal_text :
+  forall z txt pr po, no_pct pr = true -> no_pct po = true ->
+  fmtnum (VInt z) txt (pr ++ B "%d" ++ po) = FOut (pr ++ sdec z ++ po) /\ parse_signed_dec (sdec z) = Some z.
+Proof. intros z txt pr po Hp Ho. split; [exact (fmtnum_d_literal z txt pr po Hp Ho)|exact (parse_signed_dec_text z)]. Qed.
+Print Assumptions C15_fmtnum_copies_literal_text.
+Theorem C15_fmtnum_x_copies_literal_text :
+  forall z txt pr po, no_pct pr = true -> no_pct po = true -> (-18446744073709551616 <= z)%Z ->
+  fmtnum (VInt z) txt (pr ++ B "%x" ++ po) = FOut (pr ++ digits_text 16 false (Z.to_N (as_unsigned z)) ++ po).
+Proof. exact fmtnum_x_literal. Qed.
+Print Assumptions C15_fmtnum_x_copies_literal_text.
+(* %x of ANY int64 is its 64-bit two's complement: hexfmt without the 0x, reading back as z mod 2^64 *)
+Theorem C15_fmtnum_x_twos_complement :
+  forall z txt, (-9223372036854775808 <= z <= 9223372036854775807)%Z ->
+  exists t, fmtnum (VInt z) txt (B "%x") = FOut t /\ hexfmt (VInt z) txt = "0"%char :: "x"%char :: t
+            /\ parse_base 16 t 0 = Some (Z.to_N (z mod 18446744073709551616)).
+Proof. exact fmtnum_x_hexfmt. Qed.
+Print Assumptions C15_fmtnum_x_twos_complement.
+Example C15_nonvacuous_fmt_round2 :
+  no_pct (B "old: le lld ") = true /\ no_pct (B " units|") = true /\ no_pct (B "100%") = false
+  /\ fmtnum (VInt (-42)) (B "-42") (B "old: le lld %d units|") = FOut (B "old: le lld -42 units|")
+  /\ sdec (-42) = B "-42" /\ as_unsigned (-1) = 18446744073709551615%Z /\ as_unsigned 5 = 5%Z
+  /\ fmtnum (VInt (-9223372036854775808)) (B "") (B "<%x>") = FOut (B "<8000000000000000>")
+  /\ split_directive (B "a%-08.3ll_fz") = Some (B "a", B "-08.3", true, "f"%char, B "z")
+  /\ go_format (B "x%05lldy") = (KInt, B "x%05dy") /\ go_format (B "old:%s") = (KString, B "old:%s") /\ go_format (B "%5") = (KString, B "%5").
+Proof. vm_compute. repeat split; reflexivity. Qed.
+(* coercion rule: an integer verb (d x X o b) applied to a float formats int(float) = truncation toward zero (inside
+   int64); a float verb (f e g E G) applied to an int formats float64(int), exact below 2^53 *)
+Theorem C15_fmtnum_int_verb_truncates_float :
+  forall bits neg num den z txt f,
+  fst (go_format f) = KInt -> decode_bits bits = Some (neg, num, den) -> int_of_float (neg, num, den) = Some z ->
+  fmtnum (VFloat bits) txt f = fmtnum (VInt z) txt f
+  /\ z = (if neg then - Z.of_N (num / den) else Z.of_N (num / den))%Z.
+Proof.
+  intros bits neg num den z txt f K D I. split; [exact (fmtnum_int_verb_of_float bits _ z txt f K D I)|].
+  exact (proj1 (int_of_float_trunc neg num den z I)).
+Qed.
+Print Assumptions C15_fmtnum_int_verb_truncates_float.
+Theorem C15_fmtnum_float_verb_converts_int :
+  forall z txt f, fst (go_format f) = KFloat ->
+  fmtnum (VInt z) txt f =
+    (if negb (Nat.eqb (count_pct f) 1) then FError else
+     match parse_format (snd (go_format f)) with Some sp => of_opt (sprintf_float sp (float_of_int z)) | None => FUnmodelled end)
+  /\ ((Z.abs z < 9007199254740992)%Z -> float_of_int z = ((z <? 0)%Z, Z.abs_N z, 1%N)).
+Proof. intros z txt f K. split; [exact (fmtnum_float_verb_of_int z txt f K)|exact (float_of_int_exact z)]. Qed.
+Print Assumptions C15_fmtnum_float_verb_converts_int.
+(* fmtifnum = fmtnum except that an error gives the first argument back: ALL values and formats *)
+Theorem C15_fmtifnum_is_fmtnum_or_identity :
+  forall v txt f, fmtifnum v txt f <> FError
+  /\ (fmtnum v txt f = FError -> fmtifnum v txt f = FOut txt) /\ (fmtnum v txt f <> FError -> fmtifnum v txt f = fmtnum v txt f)
+  /\ (count_pct f <> 1%nat -> fmtnum v txt f = FError /\ fmtifnum v txt f = FOut txt).
+Proof.
+  intros v txt f. split; [exact (fmtifnum_never_error v txt f)|]. split; [exact (proj1 (fmtifnum_spec v txt f))|].
+  split; [exact (proj2 (fmtifnum_spec v txt f))|exact (fmtnum_rejects v txt f)].
+Qed.
+Print Assumptions C15_fmtifnum_is_fmtnum_or_identity.
+Example C15_nonvacuous_fmt_coercion :
+  fst (go_format (B "%5d|")) = KInt /\ fst (go_format (B "%.2lf")) = KFloat
+  /\ decode_bits 13836465430165716992%Z = Some (true, 5910974510923776, 2251799813685248)%N     (* -2.625 *)
+  /\ int_of_float (true, 5910974510923776, 2251799813685248)%N = Some (-2)%Z
+  /\ fmtnum (VFloat 13836465430165716992%Z) (B "-2.625") (B "%5d|") = FOut (B "   -2|")
+  /\ fmtnum (VInt 3) (B "3") (B "%.2lf") = FOut (B "3.00") /\ float_of_int 9007199254740993 = (false, 9007199254740992, 1)%N
+  /\ fmtnum (VInt 17) (B "17") (B "%d%d") = FError /\ fmtifnum (VInt 17) (B "17") (B "%d%d") = FOut (B "17")
+  /\ fmtifnum (VInt 17) (B "17") (B "%04d") = FOut (B "0017").
+Proof. vm_compute. repeat split; reflexivity. Qed.
+(* leftpad/rightpad: length in CHARACTERS; whole copies of the pad only: the result never exceeds n and falls short of n by
+   less than one pad; nothing is added when not even one copy fits; truncate leaves short strings alone *)
+Theorem C15_pad_length_law :
+  forall s n p, valid_utf8 p = true ->
+  strlen (leftpad s n p) = (Z.of_nat (pad_count s n p) * strlen p + strlen s)%Z
+  /\ (valid_utf8 s = true -> strlen (rightpad s n p) = (strlen s + Z.of_nat (pad_count s n p) * strlen p)%Z)
+  /\ ((0 < strlen p)%Z -> (strlen s + strlen p <= n)%Z -> (n - strlen p < strlen (leftpad s n p) <= n)%Z)
+  /\ ((n < strlen s + strlen p)%Z -> leftpad s n p = s /\ rightpad s n p = s).
+Proof.
+  intros s n p V. split; [exact (leftpad_length s n p V)|]. split; [intros Vs; exact (rightpad_length s n p Vs V)|].
+  split; [intros P H; rewrite (leftpad_length s n p V); exact (pad_count_bounds s n p P H)|exact (pad_count_zero s n p)].
+Qed.
+Print Assumptions C15_pad_length_law.
+Theorem C15_truncate_short_is_identity : forall s n, (strlen s <= n)%Z -> truncate s n = s.
+Proof. exact truncate_short. Qed.
+Print Assumptions C15_truncate_short_is_identity.
+Example C15_nonvacuous_pad :
+  valid_utf8 (bs [195; 169; 45]%N) = true /\ strlen (bs [195; 169; 45]%N) = 2%Z
+  /\ leftpad (B "ab") 7 (bs [195; 169; 45]%N) = bs [195; 169; 45; 195; 169; 45; 97; 98]%N
+  /\ strlen (leftpad (B "ab") 7 (bs [195; 169; 45]%N)) = 6%Z /\ pad_count (B "ab") 7 (bs [195; 169; 45]%N) = 2%nat
+  /\ leftpad (B "ab") 3 (bs [195; 169; 45]%N) = B "ab" /\ truncate (B "ab") 5 = B "ab".
 Proof. vm_compute. repeat split; reflexivity. Qed.
 
 (* ================================================================== regex: matcher, sub/gsub/regextract, =~ registers
